@@ -28,7 +28,7 @@ CHECKS = {
                 text="All histories <= d (quick 3, thorough 4-5) over worlds with a redo-stamp node at depth 1..3, two in series and one with plain+always "
                      "dependents, with edits that do and do not alter the stamped bytes; executed set must equal the reference (no dependent runs after an "
                      "unchanged checksum; every dependent runs in the same command after a changed one) and contents must equal the from-scratch evaluation. "
-                     "The run fails as vacuous unless all four quadrants (changed/unchanged x in-band/out-of-band) were exercised. One world feeds redo-stamp through a pipe in two bursts (csum-burst). Another has a checksummed node that fails after it has run redo-stamp (csum-fail-late)."",
+                     "The run fails as vacuous unless all four quadrants (changed/unchanged x in-band/out-of-band) were exercised. One world feeds redo-stamp through a pipe in two bursts (csum-burst). Another has a checksummed node that fails after it has run redo-stamp (csum-fail-late).",
                 note="Trusted: reference model; flat worlds; -j1."),
     "C04": dict(engine="E3 (observe mode) + behaviour matrix", category="fault_enumeration", design_ref="DESIGN.md §4 C04",
                 technique="exhaustive enumeration of script behaviours x sizes x prior states, target observed at every state-changing libc call boundary of every redo process",
@@ -59,7 +59,7 @@ CHECKS = {
                      "SIGKILLs a whole invocation tree at any step while a second invocation wants the same targets (the survivor must exit 0 with correct contents); "
                      "and two invocations that reach one file through two names of its directory (a symbolic link). "
                      "From the scheduler's total event order: begin/end of one target's script never overlap; between a script's end and "
-                     "the next acquisition of that target's lock there is a record-begin followed by COMMIT from the recording process; every finished execution is recorded. Also: a source edited by the harness at a script-chosen instant while the out-of-band rebuild runs and a second invocation waits (S8); two forced `redo x` (built / never built): nobody's output is taken for the user's, both forced builds run, built targets are recorded as generated. S11: the user sends SIGTERM to the shell of one script of a -j2 build while a second invocation wants the other job's target."",
+                     "the next acquisition of that target's lock there is a record-begin followed by COMMIT from the recording process; every finished execution is recorded. Also: a source edited by the harness at a script-chosen instant while the out-of-band rebuild runs and a second invocation waits (S8); two forced `redo x` (built / never built): nobody's output is taken for the user's, both forced builds run, built targets are recorded as generated. S11: the user sends SIGTERM to the shell of one script of a -j2 build while a second invocation wants the other job's target.",
                 note="Script begin/end come from the generated scripts (trap EXIT). SIGKILL of an invocation's parent only (kernel frees fcntl locks of a dead owner while its "
                      "script survives) is outside these scenarios and is not claimed."),
     "C07": dict(engine="E2", category="model_checking", design_ref="DESIGN.md §4 C07, appendix A",
@@ -67,7 +67,7 @@ CHECKS = {
                 text="One invocation at -j2/-j3 on graphs with shared nodes (diamond, 3-fan over a shared leaf, two targets over a shared chain in every command-line order "
                      "= every --shuffle outcome, shared checksummed node on a rebuild, a shared target that stopped recording a checksum, shared redo-always node); every schedule with <= b deviations (quick 1, thorough 2). "
                      "No script starts twice; exit status, every file's content, the set of built targets and the canonical database state (flags, csum, stamp class, which "
-                     "run-id columns are set, dependency edges) equal the serial run's. --shuffle is enumerated through a hook (REDO_VERIF_SHUFFLE=k selects the k-th permutation of every list): all 24 permutations of lists of <= 4 names with repeated entries, redo and redo-ifchange, fresh and rebuild, -j1 and free-running -j2. "At most once per run" is judged absolutely (not against the serial run of the same binary); two jobs asking for one file through two names of its directory; two jobs that go on without a shared dependency that fails."",
+                     "run-id columns are set, dependency edges) equal the serial run's. --shuffle is enumerated through a hook (REDO_VERIF_SHUFFLE=k selects the k-th permutation of every list): all 24 permutations of lists of <= 4 names with repeated entries, redo and redo-ifchange, fresh and rebuild, -j1 and free-running -j2. "At most once per run" is judged absolutely (not against the serial run of the same binary); two jobs asking for one file through two names of its directory; two jobs that go on without a shared dependency that fails.",
                 note="The shuffle permutation hook of the design was replaced by enumerating the command-line orders explicitly (same set of orders). Graph sizes as listed."),
     "C08": dict(engine="E2 + harness as jobserver parent", category="model_checking", design_ref="DESIGN.md §4 C08, appendix A",
                 technique="stateless model checking with the harness owning the GNU-make token pipe; token-conservation and concurrency-limit oracle on the event order",
@@ -76,7 +76,7 @@ CHECKS = {
                      "follower in the scheduled tree), including two scenarios built so that the followed sub-redo has to CHEAT (token starvation while it waits for a lock: it "
                      "then finds the target up to date, or builds it itself with the borrowed token); every schedule with <= b "
                      "deviations (quick 1, thorough 2). Peak number of scripts inside work sections <= N (+1 only after a cheat grant); toplevel self-check and hook-reported "
-                     "counts equal N; inherited pipe holds exactly N-1 tokens and the cheat pipe is empty after all processes exited, on success, failure and error exit. Also a parent that is a real GNU make (MAKEFLAGS only, no cheat pipe) including a redo whose only job waits for a target held by an independent redo; an explicit -j1 / -j2 and a MAKEFLAGS-less redo started from inside a script after a cheat. Tokens of any byte value (NUL, '+'); a sub-redo that cannot start its job for want of file descriptors; failing builds under a real make parent."",
+                     "counts equal N; inherited pipe holds exactly N-1 tokens and the cheat pipe is empty after all processes exited, on success, failure and error exit. Also a parent that is a real GNU make (MAKEFLAGS only, no cheat pipe) including a redo whose only job waits for a target held by an independent redo; an explicit -j1 / -j2 and a MAKEFLAGS-less redo started from inside a script after a cheat. Tokens of any byte value (NUL, '+'); a sub-redo that cannot start its job for want of file descriptors; failing builds under a real make parent.",
                 note="Evidence reports the distinct ready-sets seen at event-loop wake-ups and how many executions granted a cheat token (a run where that is 0 has not "
                      "exercised cheating). Scripts in the cheat scenarios wait for each other through scheduler-visible flags (Spec.sync), which makes the contention the default schedule."),
     "C09": dict(engine="E2", category="model_checking", design_ref="DESIGN.md §4 C09, appendix A",
@@ -86,7 +86,7 @@ CHECKS = {
                      "fork hand-overs, select! order, script gates). Scenarios: sub-redo with three children plus a sibling job at -j2/-j3, two top-level invocations on "
                      "one target (two deviations already in the quick tier), the same target under two spellings, two sub-redos wanting each other's targets, diamond/fan at -j2/-j3, a failing fan, "
                      "token cheating under log capture, and a minute-long wait for a token (80 polling intervals in virtual time). Oracle on every "
-                     "execution: no panic / exit 101, no deadlock, no livelock, termination, exit 0 when all scripts succeed. Also a script that replaces its target's directory by a file while a sibling job runs. Unscheduled part: nine commands run with stdout/stderr being pipes without a reader (EPIPE) -- no abort, no death by signal."",
+                     "execution: no panic / exit 101, no deadlock, no livelock, termination, exit 0 when all scripts succeed. Also a script that replaces its target's directory by a file while a sibling job runs. Unscheduled part: nine commands run with stdout/stderr being pipes without a reader (EPIPE) -- no abort, no death by signal.",
                 note="Interleavings inside an SQLite immediate transaction and inside the kernel are not distinguished; time in the jobserver is virtual; at most 2 "
                      "top-level invocations and the listed graphs; schedules beyond the deviation bound are not covered."),
     "C10": dict(engine="E3", category="fault_enumeration", design_ref="DESIGN.md §4 C10, appendix D",
@@ -96,7 +96,7 @@ CHECKS = {
                      "whole tree}: the build is killed immediately before EVERY state-changing libc call (rename, unlink, open-for-write/create, write to the database, WAL, log, "
                      "ftruncate, mkdir...) of every redo process (k = 1..N per logical process) and, whole tree, at every script boundary (script start, after each dependency "
                      "request, after the output was written) -- ~1100 points quick, ~3000 thorough; then `redo-ifchange top` must terminate, "
-                     "exit 0, give from-scratch contents without 'you modified it', react correctly to editing every source, leave redo-ood empty, no lock held and no *.redo.tmp. Scope sproc kills, at the script boundaries, only the redo process that runs the script (the orphaned script goes on, redo-stamp included); scope tree+q runs redo-sources/targets/ood between the crash and the recovery: redo's own output is never listed as a source and everything the recovery rebuilds among the known targets was listed out of date. World csum-append: a checksummed node that appends to $3. Worlds tolerant / tolerant-csum (a script that goes on without a failed dependency) under scope sproc; worlds chain+log / csum-mid+log with log capture on."",
+                     "exit 0, give from-scratch contents without 'you modified it', react correctly to editing every source, leave redo-ood empty, no lock held and no *.redo.tmp. Scope sproc kills, at the script boundaries, only the redo process that runs the script (the orphaned script goes on, redo-stamp included); scope tree+q runs redo-sources/targets/ood between the crash and the recovery: redo's own output is never listed as a source and everything the recovery rebuilds among the known targets was listed out of date. World csum-append: a checksummed node that appends to $3. Worlds tolerant / tolerant-csum (a script that goes on without a failed dependency) under scope sproc; worlds chain+log / csum-mid+log with log capture on.",
                 note="Crash = process kill at libc-call boundaries (the property's quantifier), not power loss. Shim coverage cross-checked against strace -f. -j1, REDO_LOG=0. "
                      "The counting run is done twice and must agree."),
     "C16": dict(engine="E2", category="model_checking", design_ref="DESIGN.md §4 C16, appendix A",
@@ -105,7 +105,7 @@ CHECKS = {
                      "<= b deviations (quick 1, thorough 2-3) at the gates database-open, transaction begin, locks, event loop, scripts is executed on the real binary. "
                      "Oracle: every command exits 0 with no SQLite/busy/lock message, integrity_check ok, every Files row and Deps edge each command must write is present, "
                      "contents correct, run ids unique. Plus an environment player outside the scheduler: an external connection holds the write lock for each of an enumerated "
-                     "list of hold times (0.2 s .. 8 s quick, .. 20 s thorough) while four commands start; all must wait and succeed. Scenario crossed-lists-j2: two parallel builds whose lists end with a target the other starts with (no lock wait while holding the lock of a finished, unrecorded job)."",
+                     "list of hold times (0.2 s .. 8 s quick, .. 20 s thorough) while four commands start; all must wait and succeed. Scenario crossed-lists-j2: two parallel builds whose lists end with a target the other starts with (no lock wait while holding the lock of a finished, unrecorded job).",
                 note="No gate inside an IMMEDIATE transaction (mutually excluded by SQLite, atomic for other processes). <= 3 commands; all scripts succeed."),
     "C11": dict(engine="E1", category="model_checking", design_ref="DESIGN.md §4 C11",
                 technique="explicit-state BFS over histories mixing builds with user create/edit/replace/remove, ownership-ledger oracle",
@@ -113,7 +113,7 @@ CHECKS = {
                      "user-rm} for a name matched by default.x.do and a name with a specific t.do; an ownership ledger records the last writer of each path. Every redo "
                      "command must leave bytes and inode of every user-owned path unchanged, warn when it skips a user-modified generated file, run only scripts the reference "
                      "allows and rebuild correctly after the user removed the file. Also a user-made symbolic link under a name the default rule matches, and a second world in which the "
-                     "user edits and removes a checksummed target that has a dependent. Third world: a rule whose product is a directory (mkdir $3) and a non-empty directory of the user's under a matching name. Also the user's file hard-linked into a target's place, and seed states: first-ever build killed after redo-stamp then a user file; removed checksummed target whose rebuild fails, user file, removal."",
+                     "user edits and removes a checksummed target that has a dependent. Third world: a rule whose product is a directory (mkdir $3) and a non-empty directory of the user's under a matching name. Also the user's file hard-linked into a target's place, and seed states: first-ever build killed after redo-stamp then a user file; removed checksummed target whose rebuild fails, user file, removal.",
                 note="-j1; two names, one default and one specific rule. Edits that keep mtime AND size identical are not generated (redo's documented detection is by mtime/size)."),
     "C12": dict(engine="E1 (-j1) + E2 (-j2)", category="model_checking", design_ref="DESIGN.md §4 C12",
                 technique="exhaustive enumeration of cyclic graph family x entry points at -j1; stateless schedule exploration at -j2 with deadlock/livelock detection",
@@ -127,7 +127,7 @@ CHECKS = {
                 text="E4: for every target path of a component grammar (5 directory shapes x 9 name shapes incl. leading dots, double dots, spaces, unicode; "
                      "thorough also '..' and doubled-separator spellings) the candidate list of the library (possible_do_files) equals an independent "
                      "reference of the documented order. Real binary: for targets with k<=8 candidates, ALL 2^k placements of candidate scripts are built "
-                     "with `redo` and listed with `redo-whichdo`; chosen script, $1, $2, $3, cwd and the whichdo listing/status must equal the reference. Histories: add a higher-priority candidate / remove the chosen one for every candidate pair (target directory existing or not; the candidate first appearing as a dangling symbolic link; a target whose name starts with a dash). 21 cases of a target outside the project directory asked for by a script (rules above the target, a foreign rule in the project directory)."",
+                     "with `redo` and listed with `redo-whichdo`; chosen script, $1, $2, $3, cwd and the whichdo listing/status must equal the reference. Histories: add a higher-priority candidate / remove the chosen one for every candidate pair (target directory existing or not; the candidate first appearing as a dangling symbolic link; a target whose name starts with a dash). 21 cases of a target outside the project directory asked for by a script (rules above the target, a foreign rule in the project directory).",
                 note="Exhaustive over the stated grammar and placements; longer names/deeper trees are not covered. History part (add higher-priority / remove chosen) is C02's default world."),
     "C14": dict(engine="E1 (+E2 scenario always-j2)", category="model_checking", design_ref="DESIGN.md §4 C14",
                 technique="explicit-state BFS over create/delete/edit/build histories on the real binary; reference-simulation oracle",
@@ -157,7 +157,7 @@ CHECKS = {
                      "E2: world top -> {a -> c, b}, every script writes a whole line, a line in two halves with a scheduling point in between, a 20 kB line and a line after its "
                      "dependencies; default log mode (real redo-log follower inside the scheduled tree, its polls are scheduling points), -j1 and -j2, every schedule with <= b "
                      "deviations (quick 1, thorough 2): in the live output and in later `redo-log -r` replays (pretty and raw) each target's lines appear exactly once, in order, "
-                     "byte-complete, under that target's header. Further scenarios: a target reached under three names (../c from two directories), replays with -u, a nested build whose stderr the calling script redirected, lines that look like records (unknown file, malformed done, record prefix inside a partial line), an unchanged dependency that writes nothing. Also a record without text, a multi-byte character cut between two polls, a target whose name ends in a space."",
+                     "byte-complete, under that target's header. Further scenarios: a target reached under three names (../c from two directories), replays with -u, a nested build whose stderr the calling script redirected, lines that look like records (unknown file, malformed done, record prefix inside a partial line), an unchanged dependency that writes nothing. Also a record without text, a multi-byte character cut between two polls, a target whose name ends in a space.",
                 note="A script line that itself parses as a record is in-band signalling by design (thorough scenario). Graph and line shapes as listed."),
 }
 
